@@ -6,12 +6,16 @@ edit mode) and its `CommandStack`, as coded in `glue/core/command.py` (`CommandS
 `glue/core/data_collection.py` (`append`, `remove`, `new_subset_group`, `remove_subset_group`) and
 `glue/core/subset_group.py` (`_add_data`, `_remove_data`, `register`).  Core Lean only.
 
-Version switch.  `cmdUndo fixed`: `fixed = true` is the code **with**
-`fix: F4-apply-undo-created-group` (`ApplySubsetState/ApplyROI.undo` = `_restore_subsets`),
-`fixed = false` the code before it (delete the subsets that are not in `old_states`, restore the
-recorded per-subset states; nothing about groups or `edit_subset`).  `Impl` is `fixed = true`.
-`AddData` / `RemoveData` are modelled as they are coded (no fix): `undo` of `AddData` is an
-unconditional `remove`, `undo` of `RemoveData` is `append` (at the end of the collection).
+Versions.  The command stack is parametrised by a command semantics `Sem` (what `cmd.do` and
+`cmd.undo` do to the session):
+* `Impl` — the code **with** `fix: F4-apply-undo-created-group` (`ApplySubsetState/ApplyROI.undo` =
+  `_restore_subsets`); `AddData` / `RemoveData` as they are coded (no fix): `undo` of `AddData` is
+  an unconditional `remove`, `undo` of `RemoveData` is `append` (at the end of the collection);
+* `Old` — the code before the fix (delete the subsets that are not in `old_states`, restore the
+  recorded per-subset states; nothing about groups or `edit_subset`);
+* `Ideal` — `Impl` with `AddData` / `RemoveData` as the property demands them (they remember whether
+  the dataset was present and where): not in /repo, it is the reference for which the refinement
+  theorem holds without any hypothesis on the history.
 
 Abstraction of object identity.
 * datasets: natural numbers `0 … nData-1` (they exist before and after being in the collection);
@@ -159,9 +163,13 @@ structure Saved where
   groups : List (Nat × Sel)
   sgCount : Nat
   edit : List Nat
+  /-- only recorded by the `Ideal` `AddData` / `RemoveData`: was the dataset in the collection? -/
+  present : Bool := false
+  /-- only recorded by the `Ideal` `RemoveData`: the position of the dataset in the collection. -/
+  index : Nat := 0
   deriving DecidableEq, Repr
 
-def Saved.empty : Saved := ⟨[], [], 0, []⟩
+def Saved.empty : Saved := { subs := [], groups := [], sgCount := 0, edit := [] }
 
 /-- A command object: its arguments and what its last `do` recorded. -/
 structure Cmd where
@@ -230,6 +238,29 @@ def cmdUndo (fixed : Bool) (c : Cmd) (b : Body) : Body :=
   | .apply _ _ => if fixed then restore c.saved b else restoreOld c.saved b
   | .applyRoi _ => if fixed then restore c.saved b else restoreOld c.saved b
 
+/-! ### `AddData` / `RemoveData` as the property demands them (`Ideal`, not in /repo) -/
+
+/-- put dataset `d` back at position `i` of the collection (every live group adds its subset). -/
+def insertData (i d : Nat) (b : Body) : Body :=
+  if d ∈ b.datasets then b
+  else { b with datasets := b.datasets.insertIdx i d, dsubs := upd b.dsubs d (b.dsubs d ++ liveIds b) }
+
+/-- `AddData.do` also records whether the dataset was already there; `RemoveData.do` whether and
+where it was. -/
+def Ideal.cmdDo : CmdSpec → Body → Body × Saved
+  | .addData d, b => (appendData d b, { Saved.empty with present := b.datasets.contains d })
+  | .removeData d, b =>
+    (removeData d b, { Saved.empty with present := b.datasets.contains d, index := b.datasets.idxOf d })
+  | sp, b => C13Undo.cmdDo sp b
+
+/-- `AddData.undo` removes the dataset only if the command added it; `RemoveData.undo` puts the
+dataset back where it was, and only if the command removed it. -/
+def Ideal.cmdUndo (c : Cmd) (b : Body) : Body :=
+  match c.spec with
+  | .addData d => if c.saved.present then b else removeData d b
+  | .removeData d => if c.saved.present then insertData c.saved.index d b else b
+  | _ => C13Undo.cmdUndo true c b
+
 /-! ## The command stack -/
 
 /-- `MAX_UNDO`. -/
@@ -242,27 +273,11 @@ structure State where
   /-- `CommandStack._undo_stack`, next to be redone first. -/
   undone : List Cmd
 
-/-- `CommandStack.do(cmd)`: `_command_stack.append(cmd); cmd.do(session);
-_command_stack = _command_stack[-MAX_UNDO:]; _undo_stack = []`. -/
-def doCmd (sp : CmdSpec) (st : State) : State :=
-  let r := cmdDo sp st.body
-  { body := r.1, done := (⟨sp, r.2⟩ :: st.done).take maxUndo, undone := [] }
-
-/-- `CommandStack.undo()`: `IndexError` (`true`, nothing changes) on an empty stack; otherwise pop,
-push on the undo stack, `c.undo(session)`. -/
-def undoCmd (fixed : Bool) (st : State) : State × Bool :=
-  match st.done with
-  | [] => (st, true)
-  | c :: rest => ({ body := cmdUndo fixed c st.body, done := rest, undone := c :: st.undone }, false)
-
-/-- `CommandStack.redo()`: `IndexError` on an empty undo stack; otherwise pop, `c.do(session)`
-(which records afresh), append to the command stack (no truncation here). -/
-def redoCmd (st : State) : State × Bool :=
-  match st.undone with
-  | [] => (st, true)
-  | c :: rest =>
-    let r := cmdDo c.spec st.body
-    ({ body := r.1, done := ⟨c.spec, r.2⟩ :: st.done, undone := rest }, false)
+/-- A command semantics: what `cmd.do(session)` (new session, what the command recorded) and
+`cmd.undo(session)` do. -/
+structure Sem where
+  doF : CmdSpec → Body → Body × Saved
+  undoF : Cmd → Body → Body
 
 /-- A letter of a history. -/
 inductive Op where
@@ -271,18 +286,46 @@ inductive Op where
   | redo
   deriving DecidableEq, Repr
 
+namespace Sem
+
+/-- `CommandStack.do(cmd)`: `_command_stack.append(cmd); cmd.do(session);
+_command_stack = _command_stack[-MAX_UNDO:]; _undo_stack = []`. -/
+def doCmd (S : Sem) (sp : CmdSpec) (st : State) : State :=
+  let r := S.doF sp st.body
+  { body := r.1, done := (⟨sp, r.2⟩ :: st.done).take maxUndo, undone := [] }
+
+/-- `CommandStack.undo()`: `IndexError` (`true`, nothing changes) on an empty stack; otherwise pop,
+push on the undo stack, `c.undo(session)`. -/
+def undoCmd (S : Sem) (st : State) : State × Bool :=
+  match st.done with
+  | [] => (st, true)
+  | c :: rest => ({ body := S.undoF c st.body, done := rest, undone := c :: st.undone }, false)
+
+/-- `CommandStack.redo()`: `IndexError` on an empty undo stack; otherwise pop, `c.do(session)`
+(which records afresh), append to the command stack (no truncation here). -/
+def redoCmd (S : Sem) (st : State) : State × Bool :=
+  match st.undone with
+  | [] => (st, true)
+  | c :: rest =>
+    let r := S.doF c.spec st.body
+    ({ body := r.1, done := ⟨c.spec, r.2⟩ :: st.done, undone := rest }, false)
+
 /-- One step of the stack: the new state and whether `IndexError` was raised. -/
-def step (fixed : Bool) (st : State) : Op → State × Bool
-  | .do sp => (doCmd sp st, false)
-  | .undo => undoCmd fixed st
-  | .redo => redoCmd st
+def step (S : Sem) (st : State) : Op → State × Bool
+  | .do sp => (S.doCmd sp st, false)
+  | .undo => S.undoCmd st
+  | .redo => S.redoCmd st
 
-def run (fixed : Bool) (st : State) (w : List Op) : State := w.foldl (fun st op => (step fixed st op).1) st
+def run (S : Sem) (st : State) (w : List Op) : State := w.foldl (fun st op => (S.step st op).1) st
 
-abbrev Impl.step := C13Undo.step true
-abbrev Impl.run := C13Undo.run true
-abbrev Old.step := C13Undo.step false
-abbrev Old.run := C13Undo.run false
+end Sem
+
+/-- the code with `fix: F4-apply-undo-created-group`. -/
+def Impl : Sem := ⟨cmdDo, cmdUndo true⟩
+/-- the code before the fix. -/
+def Old : Sem := ⟨cmdDo, cmdUndo false⟩
+/-- `Impl` with `AddData` / `RemoveData` as the property demands them. -/
+def Ideal : Sem := ⟨Ideal.cmdDo, Ideal.cmdUndo⟩
 
 /-! ## Non-command set-up of a session (what the harness does before the history starts) -/
 
@@ -369,13 +412,13 @@ def clean (sp : CmdSpec) (b : Body) : Bool :=
   | .removeData d => b.datasets.getLast? == some d
   | _ => true
 
-/-- every `do` letter of the history is `clean` in the state in which it is executed. -/
-def cleanWord (fixed : Bool) (st : State) : List Op → Bool
+/-- every `do` letter of the history satisfies `cl` in the state in which it is executed. -/
+def Sem.cleanWord (S : Sem) (cl : CmdSpec → Body → Bool) (st : State) : List Op → Bool
   | [] => true
   | op :: w =>
     (match op with
-     | .do sp => clean sp st.body
-     | _ => true) && cleanWord fixed (step fixed st op).1 w
+     | .do sp => cl sp st.body
+     | _ => true) && S.cleanWord cl (S.step st op).1 w
 
 /-! ## Spec: a list zipper of observations
 
@@ -447,13 +490,10 @@ def letterOf : Op → Spec.Letter
   | .redo => .redo
 
 /-- The trace of a history on the model: one observed step per letter. -/
-def trace (fixed : Bool) (st : State) : List Op → List (Spec.Step Obs)
+def Sem.trace (S : Sem) (st : State) : List Op → List (Spec.Step Obs)
   | [] => []
   | op :: w =>
-    let r := step fixed st op
-    ⟨letterOf op, r.2, observe r.1.body, r.1.done.length, r.1.undone.length⟩ :: trace fixed r.1 w
-
-abbrev Impl.trace := C13Undo.trace true
-abbrev Old.trace := C13Undo.trace false
+    let r := S.step st op
+    ⟨letterOf op, r.2, observe r.1.body, r.1.done.length, r.1.undone.length⟩ :: S.trace r.1 w
 
 end GlueVerif.C13Undo
